@@ -199,6 +199,8 @@ def make_probe(desc, kk):
 
 
 def run(rep, tier):
+    from .. import scale
+    scale.run(rep, PROP, tier)          # size ladders (seedverif/scale.py): the entries that concern this property
     rng = core.rng_for(PROP)
     descs = []
     keys4 = ["a", "b", "é", ""]
